@@ -637,6 +637,104 @@ def check_close_event(ctx, P, MV):
         o.ok("ADD/MOD under lock before yield")
 
 
+def check_setup(ctx, P, MV):
+    B, W = MV["IO_FLAG_BLOCKING"], MV["IO_FLAG_WAITABLE"]
+    ss = P.fn("setup_socket")
+    o = ctx.ob("setup", ss, "a descriptor created through the shims is made non-blocking underneath (real fcntl F_SETFL O_NONBLOCK) and recorded as managed and "
+               "in blocking mode (BLOCKING|WAITABLE) — unless the thread is I/O-locked, in which case neither happens",
+               "recorded as managed but still blocking underneath: the next read blocks the whole kernel thread and every fiber on it; made non-blocking "
+               "but not recorded: blocking-mode calls return EAGAIN")
+    bad = None
+    ors = [x for x in ss.stores() if x.aop == "fetch_or" and is_field(ss.target_key(x.target), None, "flags_")]
+    fc = [c for c in ss.calls() if c.indirect and ss.key(c.kids[0]) == ("glob", "fibershim_fcntl")]
+    if len(ors) != 1 or len(fc) != 1:
+        bad = "expected one flags_ |= and one real fcntl call"
+    else:
+        if strip(ors[0].value).cv != (B | W):
+            bad = "flags recorded are `%s`" % ors[0].value.text
+        if param_index_of(ss, strip(ors[0].target).kids[0].kids[1] if strip(ors[0].target).kids[0].k == "ArraySubscriptExpr" else ss.nodes[0]) != "sock":
+            k = ss.target_key(ors[0].target)
+            if not key_mentions(k, lambda x: x[0] == "var" and x[1] == "sock"):
+                bad = bad or "the flags of another descriptor are set"
+        a = ss.args(fc[0])
+        if param_index_of(ss, a[0]) != "sock" or a[1].cv != MV["F_SETFL"] or a[2].cv != MV["O_NONBLOCK"]:
+            bad = bad or "real fcntl arguments are `%s`" % fc[0].text
+        for tl in (0, 1):
+            env = Env(P, thread_locked=tl)
+            atom = env.base(ss, [(is_param_load(ss, "sock"), 5)])
+            e = forced_edges(ss, atom)
+            r1 = ss.find_path("entry", lambda n: n is ors[0].node, edge_ok=e) is not None
+            r2 = ss.find_path("entry", lambda n: n is fc[0], edge_ok=e) is not None
+            if (r1, r2) != ((True, True) if tl == 0 else (False, False)):
+                bad = bad or "thread_locked=%d: flags recorded=%s, made non-blocking=%s" % (tl, r1, r2)
+        env = Env(P, thread_locked=0)
+        atom = env.base(ss, [(is_param_load(ss, "sock"), 5)])
+        e = forced_edges(ss, atom)
+        if ss.find_path("entry", "exit", barrier=lambda n: n is fc[0], edge_ok=e) is not None:
+            bad = bad or "a path returns without making the descriptor non-blocking"
+        # a failing fcntl is reported
+        isfc = lambda n: n is fc[0]
+        for r in reachable_returns(ss, env.base(ss, [(is_param_load(ss, "sock"), 5), (isfc, -1)])):
+            pass
+    o.check(bad is None, "flags + real O_NONBLOCK", bad, site=ss.loc, construct="setup_socket")
+    pp = P.fn("pipe")
+    o = ctx.ob("setup.pipe", pp, "both ends of a pipe are made non-blocking underneath and recorded BLOCKING|WAITABLE", "as setup")
+    bad = None
+    ors = [x for x in pp.stores() if x.aop == "fetch_or" and is_field(pp.target_key(x.target), None, "flags_")]
+    fc = [c for c in pp.calls() if c.indirect and pp.key(c.kids[0]) == ("glob", "fibershim_fcntl")]
+    if len(ors) != 2 or len(fc) != 2:
+        bad = "expected two flags_ |= and two real fcntl calls, found %d / %d" % (len(ors), len(fc))
+    else:
+        idx = sorted(pp.key(strip(x.target).kids[0].kids[1], True)[2][1] if False else key_str(pp.target_key(x.target)) for x in ors)
+        if len(set(idx)) != 2 or any(strip(x.value).cv != (B | W) for x in ors):
+            bad = "the two ends are not both recorded with BLOCKING|WAITABLE (%s)" % idx
+        ends = sorted(key_str(pp.key(pp.args(c)[0], True)) for c in fc)
+        if len(set(ends)) != 2 or any(pp.args(c)[1].cv != MV["F_SETFL"] or pp.args(c)[2].cv != MV["O_NONBLOCK"] for c in fc):
+            bad = bad or "the two ends are not both set O_NONBLOCK (%s)" % ends
+        for c in fc:
+            for x in ors:
+                pass
+    o.check(bad is None, "two ends", bad, site=pp.loc, construct="pipe setup")
+    we = P.fn(WAIT)
+    o = ctx.ob("event.dir", we, "fiber_wait_for_event adds EPOLLIN to the descriptor's interest exactly for FIBER_POLL_IN and EPOLLOUT exactly for FIBER_POLL_OUT, "
+               "and links the calling fiber into the descriptor's waiter list under the lock before it yields",
+               "a reader registered for EPOLLOUT is woken when the socket is writable (at once) and spins; registered for nothing it sleeps for ever")
+    bad = None
+    sts = [x for x in we.stores_to("fd_wait_info", "events") if x.kind == "compound" and x.aop == "|="]
+    EPIN = [n.cv for n in we.nodes if n.m == "EPOLLIN" and n.cv is not None]
+    EPOUT = [n.cv for n in we.nodes if n.m == "EPOLLOUT" and n.cv is not None]
+    if len(sts) != 2 or not EPIN or not EPOUT:
+        bad = "interest updates not found"
+    else:
+        byv = {}
+        for x in sts:
+            byv[strip(x.value).cv if strip(x.value).cv is not None else x.value.cv] = x
+        if set(byv) != {EPIN[0], EPOUT[0]}:
+            bad = "interest bits are %s" % sorted(byv)
+        else:
+            for evv in (MV["FIBER_POLL_IN"], MV["FIBER_POLL_OUT"], MV["FIBER_POLL_IN"] | MV["FIBER_POLL_OUT"]):
+                atom = atom_from([(is_param_load(we, "events"), evv)])
+                e = forced_edges(we, atom)
+                rin = we.find_path("entry", lambda n: n is byv[EPIN[0]].node, edge_ok=e) is not None
+                rout = we.find_path("entry", lambda n: n is byv[EPOUT[0]].node, edge_ok=e) is not None
+                if rin != bool(evv & MV["FIBER_POLL_IN"]) or rout != bool(evv & MV["FIBER_POLL_OUT"]):
+                    bad = bad or "events=%d: registers EPOLLIN=%s EPOLLOUT=%s" % (evv, rin, rout)
+    wl = [x for x in we.stores_to("fd_wait_info", "waiters")]
+    ys = we.calls("fiber_manager_yield")
+    locks = we.calls("fiber_spinlock_lock")
+    if len(wl) != 1 or not ys or not locks:
+        bad = bad or "waiter list push not found"
+    else:
+        if not key_mentions(we.key(wl[0].value, True), lambda x: x[0] == "f" and x[2] == "current_fiber"):
+            bad = bad or "the fiber linked into the waiter list is not the calling fiber"
+        if we.dominated_by(wl[0].node, nodeset(locks)) is not None or we.dominated_by(ys[0], nodeset([wl[0].node])) is not None:
+            bad = bad or "the waiter list push is not between the lock and the yield"
+        chain = [x for x in we.stores_to("fiber", "scratch") if x.value is not None and key_mentions(we.key(x.value, True), lambda y: y[0] == "f" and y[2] == "waiters")]
+        if not chain or we.dominated_by(wl[0].node, nodeset([c.node for c in chain])) is not None:
+            bad = bad or "the previous waiters are not chained behind the new one (they would be lost)"
+    o.check(bad is None, "direction table + list push", bad, site=we.loc, construct="wait_for_event registration")
+
+
 def run(ctx):
     P = ctx.prog()
     MV = macro_values(P)
@@ -648,3 +746,4 @@ def run(ctx):
     check_fdcmp(ctx, P, MV)
     check_fnptr(ctx, P)
     check_close_event(ctx, P, MV)
+    check_setup(ctx, P, MV)
